@@ -268,8 +268,30 @@ func (s *scheduler) fireTimer() bool {
 	if best.deadline > s.px.clock {
 		s.px.clock = best.deadline
 	}
+	s.checkHorizon()
 	s.fire(best)
 	return true
+}
+
+// checkHorizon: when only timers keep the program going for longer than the virtual-time horizon,
+// nothing else can make progress: report a stall instead of spinning forever.
+func (s *scheduler) checkHorizon() {
+	h := s.px.eng.cfg.VirtualHorizonS
+	if h <= 0 {
+		h = 6 * 3600
+	}
+	if s.px.clock-s.px.clock0 > int64(h)*1e9 {
+		var sb []string
+		for _, t := range s.threads {
+			if !t.done {
+				sb = append(sb, fmt.Sprintf("g%d(%s): %s", t.id, t.name, t.desc))
+			}
+		}
+		sort.Strings(sb)
+		msg := fmt.Sprintf("no progress for %d virtual seconds except by timers: %v", h, sb)
+		s.px.addCandidate("stall", "stall", msg, "", nil, nil)
+		panic(pathEnd{stCrashed, msg})
+	}
 }
 
 func (s *scheduler) fire(t *vtimer) {
